@@ -5,7 +5,7 @@ use serde_json::{json, Value};
 use std::sync::Arc;
 use std::time::Duration;
 use tower::{Layer, Service};
-use tower_resilience_retry::{ExponentialBackoff, FixedInterval, RetryBudget, RetryLayer, TokenBucketBudget};
+use tower_resilience_retry::{AimdBudget, ExponentialBackoff, ExponentialRandomBackoff, FixedInterval, RetryBudget, RetryLayer, TokenBucketBudget};
 
 type Svc = <RetryLayer<Req, IErr> as Layer<Inner>>::Service;
 pub struct RetryAd {
@@ -21,9 +21,13 @@ impl Adapter for RetryAd {
         "retry"
     }
     fn gen_cfg(&mut self, rng: &mut Rng, _size: Size) -> Value {
-        let bo = *rng.pick(&["fixed", "exp"]);
+        let bo = *rng.pick(&["fixed", "exp", "exp", "rand"]);
+        let aimd = rng.pct(30);
+        let bmax = 2 + rng.below(3) as i64;
         json!({"max": rng.below(5), "perReq": if rng.pct(30) { 1 } else { 0 }, "pred": *rng.pick(&["all", "noe2"]), "bo": bo,
-               "b0": 1 + rng.below(3), "cap": 4 + rng.below(5), "budget": *rng.pick(&[-1i64, -1, 0, 1, 2, 3]), "bmax": 3})
+               "b0": if bo == "rand" { 2 + 2 * rng.below(2) } else { 1 + rng.below(3) }, "cap": 4 + rng.below(5),
+               "budget": if aimd { bmax } else { *rng.pick(&[-1i64, -1, 0, 1, 2, 3]) }, "bmax": if aimd { bmax } else { 3 },
+               "btype": if aimd { "aimd" } else { "tb" }, "bmin": 1, "cost": 1 + rng.below(2), "amount": 1 + rng.below(2), "fnum": *rng.pick(&[0u64, 2, 3, 4])})
     }
     fn build(&mut self, cfg: &Value, sim: &mut Sim) {
         let u = |k: &str| cfg[k].as_u64().unwrap();
@@ -38,12 +42,18 @@ impl Adapter for RetryAd {
         }
         if cfg["bo"] == "fixed" {
             b = b.backoff(FixedInterval::new(Duration::from_millis(u("b0"))));
+        } else if cfg["bo"] == "rand" {
+            b = b.backoff(ExponentialRandomBackoff::new(Duration::from_millis(u("b0")), 0.5).max_interval(Duration::from_millis(u("cap"))));
         } else {
             b = b.backoff(ExponentialBackoff::new(Duration::from_millis(u("b0"))).max_interval(Duration::from_millis(u("cap"))));
         }
         let mut bud: Option<Arc<dyn RetryBudget>> = None;
         if cfg["budget"].as_i64().unwrap() >= 0 {
-            let x: Arc<dyn RetryBudget> = Arc::new(TokenBucketBudget::new(0.0, u("bmax") as usize, cfg["budget"].as_u64().unwrap() as usize));
+            let x: Arc<dyn RetryBudget> = if cfg["btype"] == "aimd" {
+                Arc::new(AimdBudget::new(u("bmin") as usize, u("bmax") as usize, u("amount") as usize, u("cost") as usize, u("fnum") as f64 / 4.0))
+            } else {
+                Arc::new(TokenBucketBudget::new(0.0, u("bmax") as usize, cfg["budget"].as_u64().unwrap() as usize))
+            };
             b = b.budget(x.clone());
             bud = Some(x);
         }
